@@ -16,7 +16,6 @@ package main
 import (
 	"errors"
 	"fmt"
-	"os"
 	"sort"
 	"strings"
 	"sync"
@@ -75,8 +74,8 @@ type formatSpec struct {
 
 type bound struct{ direct, modesFine, coarse int }
 
-var jsAtoms = []string{`"`, `'`, "`", `\`, "/", "*", "\n", "x", "=", "${", "}", "(", ")"}
-var cssAtoms = []string{`"`, `'`, `\`, "/", "*", "\n", "x", "url(", ")", "{", ":", ";"}
+var jsAtoms = []string{`"`, `'`, "`", `\`, `\\`, "/", "*", "\n", "x", "=", "${", "}", "(", ")"}
+var cssAtoms = []string{`"`, `'`, `\`, `\\`, "/", "*", "\n", "x", "url(", ")", "{", ":", ";"}
 var jsonAtoms = []string{`"`, `\`, "[", "]", "{", "}", ":", ",", "x", "1"}
 var mdAtoms = []string{"# ", "*", "`", "[", "](", ")", "<", "\n", "    ", "\t", "x", "http://x", `\`, "```", "<a ", "href="}
 
@@ -86,7 +85,7 @@ var formats = []formatSpec{
 		atoms: []string{"<a ", "<p>", "href=", "title=", "onclick=", "style=", "srcset=", `"`, `'`, ">", "/", " ", "x", "=",
 			"<script>", "</script>", "<style>", "</style>", "<textarea>", "<title>", "<!--", "-->", "//", "/*", "*/", "`", `\`, "\n"},
 		coarse: []string{"<a ", "<img ", `title="`, `title='`, "title=", `href="`, "href=", `srcset="`, `onclick="`, `style="`,
-			"<script>", "<style>", "<textarea>", "<!--", `"`, `'`, "`", "x", "?x=", ">", "/",
+			"<script>", "<style>", "<textarea>", "<!--", `"`, `'`, "`", "x", "?x=", ">", "/", `"\\"`,
 			`<script type="application/ld+json">`, `<script type="text/plain">`, `<script type="application/javascript">`, `<style type="x">`},
 		tail:   "\"'`*/\n>--></script></style></textarea></title>",
 		bounds: map[string]bound{"quick": {3, 2, 2}, "thorough": {4, 3, 2}},
@@ -113,11 +112,13 @@ var modes = []mode{
 		return map[string]string{"index." + ext: pre + "{{ " + expr + " }}" + post}
 	}},
 	{"macro", func(ext, pre, post, expr string) map[string]string {
-		return map[string]string{"index." + ext: "{% macro M %}{{ " + expr + " }}{% end %}" + pre + "{{ M() }}" + post}
+		// the declaration has a line of its own: it renders nothing, and text
+		// after it on the same line would start the rendered line
+		return map[string]string{"index." + ext: "{% macro M %}{{ " + expr + " }}{% end %}\n" + pre + "{{ M() }}" + post}
 	}},
 	{"import", func(ext, pre, post, expr string) map[string]string {
 		return map[string]string{
-			"index." + ext: `{% import "m.` + ext + `" %}` + pre + "{{ M() }}" + post,
+			"index." + ext: `{% import "m.` + ext + `" %}` + "\n" + pre + "{{ M() }}" + post,
 			"m." + ext:     "{% macro M %}{{ " + expr + " }}{% end %}",
 		}
 	}},
@@ -618,15 +619,24 @@ func (sd *spaceDef) eval(spaceID int, i uint64) kit.Outcome {
 			direct = buildEntry(sd.f, &modes[0], valueKinds[:1], pre, post)
 		}
 		r := &docResult{files: e.files}
+		// When the value is not confined in this document even if it is shown
+		// directly (for some payload), the document is reported by the
+		// direct space; a delivery mode is charged only with documents that
+		// are clean when the value is shown directly.
+		directFails, directOps := false, 0
+		if direct != nil {
+			for _, pl := range payloads {
+				d := sd.evalEntry(direct, pl)
+				directOps += d.Ops
+				directFails = directFails || !d.OK
+			}
+		}
 		for _, pl := range payloads {
 			o := sd.evalEntry(e, pl)
-			if !o.OK && direct != nil {
-				// the same document and payload already fail when the value is
-				// shown directly: that failure is reported by the direct space
-				if d := sd.evalEntry(direct, pl); !d.OK {
-					o = kit.Outcome{OK: true, Nontrivial: true, Ops: o.Ops + d.Ops, Class: "changed-also-when-shown-directly(reported-by-the-direct-space)"}
-				}
+			if !o.OK && directFails {
+				o = kit.Outcome{OK: true, Nontrivial: true, Ops: o.Ops, Class: "changed-also-when-shown-directly(reported-by-the-direct-space)"}
 			}
+			o.Ops += directOps / len(payloads)
 			r.outcomes = append(r.outcomes, o)
 		}
 		return r
@@ -750,9 +760,6 @@ func spaces(tier string) []kit.Space {
 	var defs []*spaceDef
 	for fi := range formats {
 		f := &formats[fi]
-		if only := os.Getenv("C06_DEV_ONLY"); only != "" && only != f.name {
-			continue // development aid; never set by bin/check
-		}
 		b := f.bounds[tier]
 		wrap := tier == "thorough"
 		// every document over the fine alphabet, value of type string shown directly
@@ -785,22 +792,27 @@ func main() {
 	// Every Template.Run allocates a 28 KB register file, so the collector
 	// would run every few hundred renders with the tiny live heap of this
 	// check. A never-touched (hence never resident, never scanned) ballast
-	// makes the heap goal ~1 GB instead.
-	ballast = make([]byte, 512<<20)
+	// makes the heap goal ~256 MB instead (larger heaps were slower: cold memory).
+	ballast = make([]byte, 128<<20)
 	kit.Main(&kit.Check{
 		ID:    "C06",
 		Level: "model_checking",
 		Rule: "case = (document, payload): documents are ALL atom sequences up to the tier's length over the format's alphabet with one hole at every gap, followed by a fixed closing tail. " +
-			"Per file format (html, js, css, json, md): <fmt>/direct/string = fine alphabet (28 atoms for HTML), value of type string shown directly; <fmt>/direct/types = coarse alphabet (atoms such as `title=\"` that reach every lexer context in two atoms) " +
-			"with a Stringer, an error, a []string element and a whole []string / map (value and key) / struct; <fmt>/<mode>/... = the value reached through a macro, an imported macro, a rendered partial of the same format and a rendered .txt partial. " +
-			"Each document is built once per value type and run with the benign value and with the payload (bare, and as z+payload+z for separators; for every payload in the thorough tier). " +
-			"Non-trivial = the template builds and the benign rendering holds the value in exactly one reference token, so the payload rendering is really compared token by token; the other cases are classes skipped:*",
+			"Per file format (html, js, css, json, md): <fmt>/direct/string = fine alphabet (the 28 atoms of DESIGN for HTML; up to 3 atoms quick, 4 thorough), value of type string shown directly; " +
+			"<fmt>/direct/types = coarse alphabet (atoms such as `title=\"`, `<script type=...>`, `\"\\\\\"` that reach every lexer context in two atoms) with a string, a Stringer, an error, a []string element and a whole []string / map (value and key) / struct; " +
+			"<fmt>/<mode>/coarse|fine = the value reached through a macro, an imported macro, a rendered partial of the same format and a rendered .txt partial (a mode is charged only with documents that are clean when the value is shown directly). " +
+			"Each document is built once per value type and run with the benign value and with the payload (bare, and as z+payload+z for the separators newline/space/equals; for every payload in the thorough tier except html/direct/string). " +
+			"Non-trivial = the template builds and the benign rendering holds the value in exactly one reference token (and, in JavaScript, no lexical error precedes it), so the payload rendering is really compared token by token; the other cases are classes skipped:*",
 		Assumptions: []string{
-			"reference tokenizers: x/net/html (WHATWG tokenisation), verif/oracle/jslex (ECMAScript lexical grammar + Annex B HTML-like comments; regex vs division decided by the previous token), verif/oracle/csstok (CSS Syntax L3 §4), encoding/json Decoder.Token, goldmark CommonMark (then GFM)",
+			"reference tokenizers: x/net/html (WHATWG tokenisation; script/style content by type attribute), verif/oracle/jslex (ECMAScript lexical grammar + Annex B HTML-like comments; regex vs division decided by the previous token), verif/oracle/csstok (CSS Syntax L3 §4), encoding/json Decoder.Token, goldmark CommonMark (then GFM)",
 			"the oracle is relational: token kinds must be equal and token texts equal except in the token that holds the value; a value that produces no token at all (e.g. a lone space as attribute name) is accepted",
 			"what the value decodes to inside its token is C07's business, not checked here; URL schemes (javascript:) inside an attribute value are inside the slot and so accepted",
+			"the self-closing flag of a start tag and the hard/soft kind of a Markdown line break are not part of the compared structure (x/net/html and goldmark deviate from their specifications there)",
+			"Markdown: a bare punctuation payload is compared with a benign value that has an inert comma at the same ends, and white space payloads are shown only between two letters, because CommonMark delimiter flanking depends on the class of the adjacent characters whatever the escaping",
+			"JavaScript is not error tolerant: documents whose benign rendering has a lexical error (unterminated string / regex) before the value are skipped",
+			"failures where the attack value only turns the template's markup around it into plain text are keyed value-dissolves-markup-into-text",
 			"trusted types (native.HTML, CSS, JS, JSON, Markdown) are exempt by definition and are not used as attacker values",
-			"the global v is bound with a pointer in BuildOptions.Globals and set before every run",
+			"the global v is bound with a pointer in BuildOptions.Globals and set before every run (values passed to Run are not seen inside macros on this tree: C17)",
 		},
 		Spaces: spaces,
 	})
